@@ -120,4 +120,5 @@ CS3 == CS2 \cup { C("cid3", "p2", {"v4"}) }
 CS4 == CS3 \cup { C("cid4", "p2", {"v6"}) }
 CapsQuick == { <<2, 1>>, <<2, 0>> }
 CapsFull  == { <<2, 1>>, <<2, 0>>, <<1, 2>>, <<4, 2>> }
+CapsMC    == { <<2, 1>>, <<2, 0>>, <<1, 2>>, <<2, 2>> }
 =============================================================================
